@@ -24,27 +24,42 @@ def ty_key(t):
 class Types:
     def __init__(self, tys):
         self.names = {}
-        self.decls = ["Agg :: struct { a: i32, b: u8 };", "X :: enum { Q: i32, R };"]
+        self.decls = ["Agg :: struct { a: i32, b: u8 };", "X :: enum { Q: i32, R };", "NilD :: distinct nil;"]
         for n, t in enumerate(sorted(tys, key=ty_key)):
             base = "T%d" % n
             if t["kind"] == "enum":
                 vs = []
                 for k, p in enumerate(t["shape"], start=1):
-                    v = VN[k - 1] + ("" if p == "void" else ": " + {"i32": "i32", "u8": "u8", "agg": "Agg"}[p])
+                    v = VN[k - 1] + ("" if p == "void" else ": " + {"i32": "i32", "u8": "u8", "agg": "Agg", "ptr": "^i32"}[p])
                     if t["disc"] == "custom":
                         v += " | %d" % DISC[k]
+                    elif t["disc"] in ("edge", "over") and k == 1:
+                        # the following variants are counted up from here: up to 255 / past it
+                        v += " | %d" % (256 - t["n"] if t["disc"] == "edge" else 255)
                     vs.append(v)
-                self.decls.append("%s :: enum { %s };" % (base, ", ".join(vs)))
+                if t["disc"] == "over":
+                    # an invalid declaration: it is made inside the function that uses it, so that
+                    # its diagnostics belong to that function
+                    self.local = getattr(self, "local", {})
+                    self.local[ty_key(t)] = "%s :: enum { %s };" % (base, ", ".join(vs))
+                else:
+                    self.decls.append("%s :: enum { %s };" % (base, ", ".join(vs)))
             elif t["kind"] == "opt":
                 self.decls.append("%s :: ?i32;" % base)
             elif t["kind"] == "nptr":
                 self.decls.append("%s :: ?^i32;" % base)
+            elif t["kind"] == "euptr":
+                self.decls.append("%s :: str!^i32;" % base)
             else:
                 self.decls.append("%s :: str!i32;" % base)
             name = base
-            if t["wrap"]:
+            if t["wrap"] == "distinct":
                 name = "W%d" % n
                 self.decls.append("%s :: distinct %s;" % (name, base))
+            elif t["wrap"] == "variant":
+                # the scrutinee is of the type of a variant whose payload is the sum type
+                self.decls.append("V%d :: enum { A: %s, B };" % (n, base))
+                name = "V%d.A" % n
             self.names[ty_key(t)] = (name, base)
 
     def variant_ty(self, t, v):
@@ -54,9 +69,12 @@ class Types:
         if k == "enum":
             return "X.Q" if v == 0 else "%s.%s" % (base, VN[v - 1])
         if k == "opt":
-            return {0: "str", 1: "i32", 2: "nil"}[v]
+            # a type that is nil underneath is not the variant `nil`
+            return {0: "NilD", 1: "i32", 2: "nil"}[v]
         if k == "nptr":
             return {0: "str", 1: "^i32", 2: "nil"}[v]
+        if k == "euptr":
+            return {0: "u8", 1: "^i32", 2: "str"}[v]
         return {0: "u8", 1: "i32", 2: "str"}[v]
 
     def value(self, t, r):
@@ -71,24 +89,30 @@ class Types:
                 v += ".(%d)" % (50 + r)
             elif p == "agg":
                 v += ".(Agg.{ a = %d, b = %d })" % (60 + r, 70 + r)
+            elif p == "ptr":
+                v += ".(^cell)"
+        elif k == "euptr":
+            v = "%s.(^cell)" % base if r == 1 else "%s.(\"-\")" % base
         elif k == "opt":
             v = "%s.(43)" % base if r == 1 else "%s.(nil)" % base
         elif k == "nptr":
             v = "%s.(^cell)" % base if r == 1 else "%s.(nil)" % base
         else:
             v = "%s.(44)" % base if r == 1 else "%s.(\"-\")" % base
-        return "%s.(%s)" % (name, v) if t["wrap"] else v
+        return "%s.(%s)" % (name, v) if t["wrap"] == "distinct" else v
 
     def payload_emit(self, t, v):
         """statements printing the payload bound to `a` in the arm of variant v"""
         k = t["kind"]
         if k == "enum":
             p = t["shape"][v - 1]
-            return {"i32": "emit(^a, 4);", "u8": "emit(^a, 1);", "agg": "emit(^a, 5);", "void": ""}[p]
+            return {"i32": "emit(^a, 4);", "u8": "emit(^a, 1);", "agg": "emit(^a, 5);", "void": "", "ptr": "emit((^i32).(a), 4);"}[p]
         if k == "opt":
             return "emit(^a, 4);" if v == 1 else ""
         if k == "nptr":
             return "emit(a, 4);" if v == 1 else ""
+        if k == "euptr":
+            return "emit(a, 4);" if v == 1 else "emit(rawptr.(a), 1);"
         return "emit(^a, 4);" if v == 1 else "emit(rawptr.(a), 1);"
 
     def payload_hex(self, t, r):
@@ -96,9 +120,11 @@ class Types:
         le = lambda x, n: x.to_bytes(n, "little").hex()
         if k == "enum":
             p = t["shape"][r - 1]
-            return {"i32": le(40 + r, 4), "u8": le(50 + r, 1), "agg": le(60 + r, 4) + le(70 + r, 1), "void": ""}[p]
+            return {"i32": le(40 + r, 4), "u8": le(50 + r, 1), "agg": le(60 + r, 4) + le(70 + r, 1), "void": "", "ptr": le(43, 4)}[p]
         if k in ("opt", "nptr"):
             return le(43, 4) if r == 1 else ""
+        if k == "euptr":
+            return le(43, 4) if r == 1 else "2d"
         return le(44, 4) if r == 1 else "2d"
 
 
@@ -114,17 +140,25 @@ def arm_label(T, s, pos):
 def render(T, n, s):
     t = s["ty"]
     name, base = T.names[ty_key(t)]
-    L = ["k%d :: (e: %s) {" % (n, name), "    switch a in e {"]
+    value = s.get("form") == "value"
+    if t["disc"] == "over":
+        L = ["k%d :: () {" % n, "    " + T.local[ty_key(t)], "    e : %s = %s;" % (name, T.value(t, 1)),
+             "    switch a in e {"]
+    else:
+        L = ["k%d :: (e: %s) {" % (n, name), "    x_ : i32 = switch a in e {" if value else "    switch a in e {"]
     for pos, v in enumerate(s["arms"]):
         body = "putchar(%d); " % (97 + pos)
         if v != 0:
             body += T.payload_emit(t, v)
+        if value:
+            # the first arm leaves the function, the others yield a value
+            body += " nl(); return;" if pos == 0 else " %d" % pos
         L.append("        %s => { %s }," % (arm_label(T, s, pos), body))
     if s["def"]:
         tests = " ".join("if #is_variant(a, %s) { putchar(%d); }" % (T.variant_ty(t, q), 48 + q)
                          for q in range(1, t["n"] + 1))
-        L.append("        _ => { putchar(95); %s }," % tests)
-    L.append("    }")
+        L.append("        _ => { putchar(95); %s%s }," % (tests, " 9" if value else ""))
+    L.append("    };" if value else "    }")
     L.append("    nl();")
     L.append("}")
     return "\n".join(L)
@@ -139,8 +173,9 @@ def expected_line(T, s, ent):
 
 def short(s):
     t = s["ty"]
-    return "%s%s%s n=%d %s arms=%s%s %s" % (t["kind"], "(distinct)" if t["wrap"] else "", "/custom-discr" if t["disc"] == "custom" else "",
-                                            t["n"], ",".join(t["shape"]), s["arms"], "+default" if s["def"] else "", s["style"])
+    return "%s%s%s n=%d %s arms=%s%s %s%s" % (t["kind"], "(%s)" % t["wrap"] if t["wrap"] != "none" else "", "/discr-%s" % t["disc"] if t["disc"] != "auto" else "",
+                                              t["n"], ",".join(t["shape"]), s["arms"], "+default" if s["def"] else "", s["style"],
+                                              " as value" if s.get("form") == "value" else "")
 
 
 def run(chk):
